@@ -135,6 +135,8 @@ LIGAND_CASES = [
     ('O.3', 1, 'P', 'OPGroup', 6.0, -1), ('O.3', 1, 'C', 'OHGroup', None, 0), ('O.3', 2, 'CC', 'O3Group', None, 0),
     ('O.2', 1, 'C', 'O2Group', None, 0), ('S.3', 1, 'C', 'SHGroup', 10.0, -1), ('S.3', 2, 'CC', None, None, None),
     ('C.3', 2, 'CC', None, None, None),
+    # a quaternary ammonium (four heavy neighbours) carries no proton: not an ionizable group (N.3 and N.4 spellings)
+    ('N.3', 4, 'CCCC', None, None, None), ('N.4', 4, 'CCCC', None, None, None), ('N.4', 3, 'CCC', 'N33Group', 10.0, 1), ('N.4', 1, 'C', 'N31Group', 10.0, 1),
 ]
 
 
